@@ -991,7 +991,8 @@ struct equal_n_fn<pixel<T, CS> const*, pixel<T, CS> const*>
     BOOST_FORCEINLINE
     bool operator()(pixel<T, CS> const* i1, std::ptrdiff_t n, pixel<T, CS> const* i2) const
     {
-        return memcmp(i1, i2, n * sizeof(pixel<T, CS>)) == 0;
+        // an empty range may be delimited by null pointers, which memcmp must not be given
+        return n == 0 || memcmp(i1, i2, n * sizeof(pixel<T, CS>)) == 0;
     }
 };
 
@@ -1011,6 +1012,8 @@ struct equal_n_fn<planar_pixel_iterator<IC, CS>, planar_pixel_iterator<IC, CS>>
     {
         // FIXME: ptrdiff_t vs size_t
         std::ptrdiff_t const byte_size = n * sizeof(typename std::iterator_traits<IC>::value_type);
+        if (byte_size == 0) // the channel pointers of an empty range may be null, which memcmp must not be given
+            return true;
         for (std::ptrdiff_t i = 0; i < mp11::mp_size<CS>::value; ++i)
         {
             if (memcmp(dynamic_at_c(i1, i), dynamic_at_c(i2, i), byte_size) != 0)
